@@ -985,6 +985,41 @@ def thresh(ctx):
         out.append(Inst("THRESH", "%s:threshold" % key, norm_ok, body.site(b), "reason %s 0x%02x" % (op, k), "failure iff reason >= 0x%02x" % thr))
         if "send_quota" not in str(body.fn["path"]) and (ts or fs) and ("Err" in ts or "Err" in fs):
             out.append(Inst("THRESH", "%s:err-side" % key, err_on_fail, body.site(b), "Err on the %s side (error types %s)" % ("failing" if err_on_fail else "wrong", et), "Err exactly when reason >= 0x80"))
+    # an error that reports a reason code is built only where the reason is known to be a failure: the construction is
+    # dominated by the failing edge of a threshold test (`reason >= 0x80 || other` reaches it from a second edge)
+    for body in _thresh_units(ctx):
+        for x in sorted(body.reach):
+            for st in body.blocks[x]["stmts"]:
+                if st["k"] != "assign" or st["rv"]["k"] != "agg" or not re.match(r"client::error::\w+Error$", st["rv"].get("adt") or ""):
+                    continue
+                ea = ctx.facts.adt(st["rv"]["adt"])
+                def _has_reason(a_):
+                    return a_ is not None and a_["kind"] == "struct" and any(f_["name"] == "reason" for f_ in a_["variants"][0]["fields"])
+                if ea is None or ea["kind"] != "struct" or not (_has_reason(ea) or any(_has_reason(ctx.facts.adt(re.sub(r"<.*$", "", f_["ty"]))) for f_ in ea["variants"][0]["fields"])):
+                    continue
+                how = None
+                for (d, s_) in dominating_edges(body, x):
+                    c_ = Cond(body, d)
+                    if c_.kind == "cmp":
+                        n_ = c_.cmp_norm(field_pred(body, "reason"))
+                        k_ = body.fold(n_[1]) if n_ else None
+                        truth = c_.holds_on(s_)
+                        if n_ and k_ is not None and truth is not None:
+                            eff = n_[0] if truth else {"Eq": "Ne", "Ne": "Eq", "Lt": "Ge", "Ge": "Lt", "Gt": "Le", "Le": "Gt"}[n_[0]]
+                            if (eff == "Ge" and k_ >= thr) or (eff == "Gt" and k_ >= thr - 1) or (eff == "Eq" and k_ >= thr):
+                                how = "reason %s 0x%02x at %s" % (eff, k_, body.site(d))
+                    si_ = body.switch_info(d)
+                    if how is None and si_ and si_["kind"] == "discr" and re.search(r"Reason$", si_.get("adt") or "") and any(a[0] == "field" and a[2] == "reason" for a in body.atoms({"k": "copy", "pl": si_["place"]})):
+                        vals = body.edge_value(d, s_)
+                        listed = [v for v, _ in si_["targets"]]
+                        ra = ctx.facts.adt(si_["adt"])
+                        poss = [v for v in vals if v != "otherwise"] + ([v_["discr"] for v_ in ra["variants"] if v_["discr"] not in listed] if ("otherwise" in vals and ra) else [])
+                        if poss and all(isinstance(v, int) and v >= thr for v in poss):
+                            how = "match arm of failing reasons at %s" % body.site(d)
+                key = re.sub(r"std::convert::|codec::\w+::|rsp::|handle::", "", body.path.replace("client::", ""))
+                out.append(Inst("THRESH", "%s:error-only-when-failed:%s" % (key, st["rv"]["adt"].split("::")[-1]), how is not None, "%s:%d" % (body.fn["file"], st["line"]),
+                                "%s is built %s" % (st["rv"]["adt"].split("::")[-1], "under " + how if how else "on a path where the reason may be below 0x%02x" % thr),
+                                "an error reporting a reason code exists only for reason >= 0x%02x" % thr))
     # the same decision written as a `match` on the reason enum: per variant, Err exactly for the discriminants >= 0x80
     for body in _thresh_units(ctx):
         for b in sorted(body.reach):
